@@ -755,6 +755,23 @@ func (env *Env) callExpr(x *ast.CallExpr) Val {
 			return v
 		}
 		return env.fail("string() conversion unsupported in spec; use str()")
+	case "trunc":
+		// real -> int, toward zero (Go's float-to-integer conversion)
+		v := env.eval(x.Args[0])
+		if v.C[0].Sort != SReal {
+			return v
+		}
+		pos := app(SInt, "to_int", v.C[0])
+		neg := app(SInt, "-", app(SInt, "to_int", app(SReal, "-", v.C[0])))
+		return Val{T: tInt, C: []Term{ite(app(SBool, ">=", v.C[0], Term{"0.0", SReal}), pos, neg)}}
+	case "abs":
+		v := env.eval(x.Args[0])
+		z := intT(0)
+		neg := app(v.C[0].Sort, "-", v.C[0])
+		if v.C[0].Sort == SReal {
+			z = Term{"0.0", SReal}
+		}
+		return Val{T: v.T, C: []Term{ite(app(SBool, ">=", v.C[0], z), v.C[0], neg)}}
 	case "min", "max":
 		a, b := env.eval(x.Args[0]), env.eval(x.Args[1])
 		c := le(a.C[0], b.C[0])
@@ -813,9 +830,11 @@ func (env *Env) callExpr(x *ast.CallExpr) Val {
 			v := env.eval(a)
 			as = append(as, v.C[0])
 		}
-		t := tInt
+		var t types.Type = tInt
 		if u.Res == SBool {
 			t = tBool
+		} else if u.Res == SReal {
+			t = types.Typ[types.Float64]
 		}
 		if len(as) == 0 {
 			return Val{T: t, C: []Term{{f, u.Res}}}
